@@ -56,6 +56,10 @@ def _functions():
     F["sample_two_sites"] = (lambda mu, s: normal.sample(mu, s) + 10.0 * normal.sample(0.0, 1.0), lambda N: (A(N), np.abs(A(N, off=1.3)) + 0.5), [0, (0, None), (None, 0)], "sample")
     F["sample_shape"] = (lambda mu: normal.sample(mu, 1.0, sample_shape=(3,)), lambda N: (A(N),), [0], "sample")
     F["sample_axis1"] = (lambda mv: normal.sample(mv, 1.0), lambda N: (A(2, N),), [(1,), (-1,)], "sample")
+    # a rank-3 stack mapped over its LAST axis: each lane's parameter is a (2, 3) matrix
+    F["sample_axis2_matrix"] = (lambda m: normal.sample(m, 0.5), lambda N: (A(2, 3, N),), [(2,), (-1,)], "sample")
+    F["logpdf_axis2_matrix"] = (lambda x, m: jnp.sum(normal.logpdf(x, m, 0.5)), lambda N: (A(N, 2, 3), A(2, 3, N, off=0.2)), [(0, 2), (0, -1)], "det")
+    F["sample_categorical_axis2"] = (lambda lg: categorical.sample(lg), lambda N: (A(2, 3, N) * 3.0,), [(2,)], "sample-discrete")
     F["sample_mvn"] = (lambda mean: multivariate_normal.sample(mean, jnp.asarray([[1.0, 0.3], [0.3, 2.0]])), lambda N: (A(N, 2),), [0], "sample")
     F["sample_mvn_axis1"] = (lambda mean: multivariate_normal.sample(mean, jnp.asarray([[1.0, 0.3], [0.3, 2.0]])), lambda N: (A(2, N),), [(1,)], "sample")
     # per-lane parameters of differing rank: lane i draws a K-vector from normal(mu_i, sv)
@@ -86,7 +90,7 @@ def _functions():
     return F
 
 
-KEEP_UNMAPPED = {"det_pytree", "sample_rank_mix", "sample_rank_mix_square", "logpdf_mvn_axis1", "det_axis1"}
+KEEP_UNMAPPED = {"det_pytree", "logpdf_axis2_matrix", "sample_rank_mix", "sample_rank_mix_square", "logpdf_mvn_axis1", "det_axis1"}
 
 
 def _first_axis(a):
@@ -483,7 +487,7 @@ def work(item, tier, seed):
 def items(tier):
     its = [("mvmap", n) for n in (
         "det_2args", "det_matrix", "det_axis1", "det_pytree", "logpdf", "logpdf_vecvalue", "logpdf_mvn_axis1", "logpdf_kwargs",
-        "sample", "sample_two_sites", "sample_shape", "sample_axis1", "sample_mvn", "sample_mvn_axis1", "sample_rank_mix", "sample_rank_mix_square", "sample_unmapped_site",
+        "sample", "sample_two_sites", "sample_shape", "sample_axis1", "sample_axis2_matrix", "logpdf_axis2_matrix", "sample_categorical_axis2", "sample_mvn", "sample_mvn_axis1", "sample_rank_mix", "sample_rank_mix_square", "sample_unmapped_site",
         "scan_inside", "cond_inside", "nested_modular_vmap", "axis_size_only", "flip_site",
     )]
     for c in ("chain", "two", "disc", "vecsite"):
